@@ -78,7 +78,7 @@ class Space:
 
 class Gen:
     def __init__(self, rng: random.Random, sp: Space, max_depth=5, max_nodes=60, differentiable=False,
-                 allow_ncdf=True, allow_logit=True, share_prob=1 / 3):
+                 allow_ncdf=True, allow_logit=True, share_prob=1 / 3, wide=False):
         self.r = rng
         self.sp = sp
         self.max_depth = max_depth
@@ -90,6 +90,16 @@ class Gen:
         self.shared = []
         self.share_prob = share_prob
         self.ops_used = []
+        # wide: shapes added after independent seeded changes / deviations were reported (opt-in so that the streams of
+        # the other checks using this generator do not move): truth values that are not 0/1 under and/or, one condition
+        # OBJECT shared by several ConditionalSum terms, BelongsTo sets with non-integer / large / boolean members
+        self.wide = wide
+
+    def truth(self, d, data_only=False):
+        """operand of and/or: any real is a truth value (non-zero = true)"""
+        if self.wide and self.r.random() < 0.4:
+            return self.real(d, True if self.diff else data_only)
+        return self.boolean(d, data_only)
 
     # ---- leaves ------------------------------------------------------------
     def leaf_real(self, data_only=False):
@@ -167,7 +177,7 @@ class Gen:
         elif op == 'cmp_data':
             node = self.boolean(D, True)
         elif op == 'logic':
-            node = [r.choice(['and', 'or']), self.boolean(D, data_only), self.boolean(D, data_only)]
+            node = [r.choice(['and', 'or']), self.truth(D, data_only), self.truth(D, data_only)]
         elif op == 'belongs':
             kc = r.choice(self.sp.key)
             ks = self.sp.keysets[kc]
@@ -175,6 +185,18 @@ class Gen:
             if r.random() < 0.3:
                 sub = sub + [99]
             node = ['belongs', ['var', kc], sub]
+            if self.wide and r.random() < 0.45:
+                style = r.choice(['fraction', 'large', 'bool'])
+                if style == 'fraction':
+                    # members that are values of a real column (three decimals: not representable in single precision)
+                    col = r.choice(self.sp.real + self.sp.pos)
+                    vals = sorted(set(self.sp.data[col]))
+                    node = ['belongs', ['var', col], r.sample(vals, min(len(vals), r.randint(1, 3))) + [0.1]]
+                elif style == 'large':
+                    off = r.choice([16777216, 20230100, 2 ** 31])
+                    node = ['belongs', ['add', ['var', kc], ['num', float(off)]], [off + k for k in sub]]
+                else:
+                    node = ['belongs', ['var', r.choice(self.sp.av)], r.choice([[True], [False], [True, 5], [False, True]])]
         elif op == 'multsum':
             k = r.randint(1, 4)
             node = ['multsum', [R() for _ in range(k)], r.choice(['list', 'dict'])]
@@ -183,6 +205,17 @@ class Gen:
         elif op == 'condsum':
             k = r.randint(1, 3)
             node = ['condsum', [[self.boolean(D, True if self.diff else data_only), R()] for _ in range(k)]]
+            if self.wide and r.random() < 0.4:
+                # one condition OBJECT governing several terms (written `c = x > 0` once and used twice)
+                while len(node[1]) < 2:
+                    node[1].append([None, R()])
+                self.shared.append(node[1][0][0])
+                ref = ['share', len(self.shared) - 1]
+                node[1][0][0] = ref
+                for t in node[1][1:]:
+                    if t[0] is None or r.random() < 0.7:
+                        t[0] = ref
+                r.shuffle(node[1])
         elif op == 'linutil':
             k = r.randint(1, 3)
             node = ['linutil', [[r.choice(list(self.sp.betas)), r.choice(self.sp.real + self.sp.pos)]
@@ -257,7 +290,7 @@ class Gen:
         if c < 0.7:
             return ['var', r.choice(self.sp.av)]
         if c < 0.85:
-            return [r.choice(['and', 'or']), self.boolean(d - 1, data_only), self.boolean(d - 1, data_only)]
+            return [r.choice(['and', 'or']), self.truth(d - 1, data_only), self.truth(d - 1, data_only)]
         return ['belongs', ['var', r.choice(self.sp.key)], r.sample([0, 1, 2, 3, 5, 7, 10, 20], 3)]
 
     def elem(self, d, data_only=False):
@@ -307,7 +340,7 @@ def make_case(seed: int, index: int, differentiable=False, force=None, max_depth
     rng = random.Random(f'{seed}/{index}/{differentiable}/{force}')
     sp = Space(rng, **{k: v for k, v in kw.items() if k in ('nrows', 'nfree', 'nfixed')})
     g = Gen(rng, sp, max_depth=max_depth or rng.randint(2, 6), differentiable=differentiable,
-            allow_ncdf=kw.get('allow_ncdf', True), allow_logit=kw.get('allow_logit', True))
+            allow_ncdf=kw.get('allow_ncdf', True), allow_logit=kw.get('allow_logit', True), wide=kw.get('wide', False))
     if force:
         parent, slot, child = force
         ast = forced_tree(g, parent, slot, child)
